@@ -1,13 +1,16 @@
 package main
 
 import (
+	"bufio"
 	"bytes"
+	"context"
 	"encoding/json"
 	"errors"
 	"fmt"
 	"io"
 	"log"
 	"log/slog"
+	"net"
 	"net/http"
 	"net/http/httptest"
 	"net/http/httptrace"
@@ -39,7 +42,7 @@ import (
 //
 // Case line (decimal):
 //
-//	E <mode 0 direct|1 server> <hkind 0 nano|1 text|2 json, + 10 if addSource, + 20 if colorful, + 100 x derivation of the Logger> <threshold> <route 0|1> <method> <reqno>
+//	E <mode 0 direct|1 server|2 server, raw half-closing client> <hkind 0 nano|1 text|2 json, + 10 if addSource, + 20 if colorful, + 100 x derivation of the Logger> <threshold> <route 0|1> <method> <reqno>
 //	  <nacts> { <tag 0 nop|1 hdr|2 body|3 panic> <a> <b> }*
 //	  <escaped> <wire status> <nbody> { <chunk> }* <nrec> { <tag 1 BEG|2 ERR|3 END|0 ?> <code> <ip ok> <method> <uri owner> <id owner> <pv> }*
 //
@@ -350,6 +353,10 @@ const (
 	aRedirect    // store.Redirect("/to", 302)
 	aRespond200  // store.Respond200("<cB>"), B = 0: empty content
 	aRespondJson // store.RespondJson(map[string]int{"c": B})
+	// request context; nothing is written: Nop for the model
+	aCtxReplace // store.R = store.R.WithContext(ctx), a: 0 ctx cancelled, 1 deadline expired
+	aCtxCancel  // cancels the context the request came with (direct mode; otherwise like aCtxReplace)
+	aCtxWait    // waits (bounded) until the request's context is done: raw half-closing client
 )
 
 const viaHelper = 3
@@ -387,6 +394,8 @@ func expand(a action, method int, ctSet *bool) []action {
 	case aRespondJson:
 		*ctSet = true
 		return []action{{aBody, viaHelper, a.b}}
+	case aCtxReplace, aCtxCancel, aCtxWait:
+		return []action{{aNop, 0, 0}}
 	}
 	return []action{a}
 }
@@ -460,15 +469,18 @@ type reqSpec struct {
 	mu   sync.Mutex
 	tids []string
 	// observed
-	esc     bool
-	wire    int
-	body    []int
-	cerr    string
-	recs    []decRec
-	batch   int
-	cfail   bool     // server mode: the client saw an error instead of a response
-	locals  []string // server mode: local addresses of the connections used (= remote address in the server's log)
-	retried bool
+	esc         bool
+	wire        int
+	body        []int
+	cerr        string
+	recs        []decRec
+	batch       int
+	cancel      context.CancelFunc // direct mode: cancels the context the request carries
+	preCancel   int                // direct mode: 1 the context is already cancelled at entry, 2 its deadline has expired
+	ctxDoneSeen atomic.Bool
+	cfail       bool     // server mode: the client saw an error instead of a response
+	locals      []string // server mode: local addresses of the connections used (= remote address in the server's log)
+	retried     bool
 }
 
 type decRec struct {
@@ -623,12 +635,67 @@ func (s *site) scripted(store *httpd.Store) {
 			}
 		case aRespondJson:
 			store.RespondJson(map[string]int{"c": a.b})
+		case aCtxReplace, aCtxCancel:
+			if a.tag == aCtxCancel && sp.cancel != nil {
+				sp.cancel()
+				break
+			}
+			var ctx context.Context
+			var cancel context.CancelFunc
+			if a.a == 0 {
+				ctx, cancel = context.WithCancel(store.R.Context())
+			} else {
+				ctx, cancel = context.WithDeadline(store.R.Context(), time.Now().Add(-time.Second))
+			}
+			cancel()
+			store.R = store.R.WithContext(ctx)
+		case aCtxWait:
+			select {
+			case <-store.R.Context().Done():
+				sp.ctxDoneSeen.Store(true)
+			case <-time.After(2 * time.Second):
+			}
 		}
 	}
 }
 
 // do performs one request and fills the observed response fields.
+// doRaw: a client that sends the request and half-closes its side at once (printf | nc): net/http then cancels
+// the request's context while the client is still reading the response.
+func (s *site) doRaw(sp *reqSpec) {
+	conn, err := net.DialTimeout("tcp", s.srv.Listener.Addr().String(), 5*time.Second)
+	if err != nil {
+		sp.cfail, sp.cerr = true, err.Error()
+		return
+	}
+	defer conn.Close()
+	sp.mu.Lock()
+	sp.locals = append(sp.locals, conn.LocalAddr().String())
+	sp.mu.Unlock()
+	conn.SetDeadline(time.Now().Add(20 * time.Second))
+	fmt.Fprintf(conn, "%s %s HTTP/1.1\r\nHost: verif\r\nX-Verif-Req: %d\r\nConnection: close\r\n\r\n", methods[sp.method], sp.uri, sp.no)
+	if tc, ok := conn.(*net.TCPConn); ok {
+		tc.CloseWrite()
+	}
+	resp, err := http.ReadResponse(bufio.NewReader(conn), &http.Request{Method: methods[sp.method]})
+	if err != nil {
+		sp.cfail, sp.cerr = true, err.Error()
+		return
+	}
+	b, rerr := io.ReadAll(resp.Body)
+	resp.Body.Close()
+	sp.wire = resp.StatusCode
+	sp.body = decodeBody(string(b))
+	if rerr != nil {
+		sp.cfail, sp.cerr = true, rerr.Error()
+	}
+}
+
 func (s *site) do(sp *reqSpec) {
+	if sp.mode == 2 {
+		s.doRaw(sp)
+		return
+	}
 	if sp.mode == 1 {
 		req, err := http.NewRequest(methods[sp.method], s.srv.URL+sp.uri, nil)
 		if err != nil {
@@ -658,6 +725,16 @@ func (s *site) do(sp *reqSpec) {
 		return
 	}
 	req := httptest.NewRequest(methods[sp.method], sp.uri, nil)
+	ctx, cancel := context.WithCancel(context.Background())
+	switch sp.preCancel {
+	case 1:
+		cancel()
+	case 2:
+		ctx, cancel = context.WithDeadline(context.Background(), time.Now().Add(-time.Second))
+	}
+	defer cancel()
+	sp.cancel = cancel
+	req = req.WithContext(ctx)
 	req.RemoteAddr = sp.addr
 	req.Header.Set("X-Verif-Req", strconv.Itoa(sp.no))
 	rec := httptest.NewRecorder()
@@ -956,7 +1033,7 @@ func (rn *runner) batch(s *site, specs []*reqSpec) {
 	used := make([]bool, len(panicLines))
 	var again []*reqSpec
 	for _, sp := range specs {
-		if sp.mode != 1 {
+		if sp.mode == 0 {
 			continue
 		}
 		sp.mu.Lock()
@@ -1126,12 +1203,20 @@ func (rn *runner) emit(s *site, sp *reqSpec, inflight int) {
 	rn.stats[fmt.Sprintf("route_matched_%d", sp.route)]++
 	rn.stats[fmt.Sprintf("inflight_le_%d", ceilPow2(inflight))]++
 	rn.stats["method_"+methods[sp.method]]++
+	if sp.preCancel != 0 {
+		rn.stats["context_done_at_entry"]++
+	}
+	if sp.ctxDoneSeen.Load() {
+		rn.stats["context_cancelled_by_half_closing_client_seen"]++
+	}
 	for _, a := range sp.script {
 		switch {
 		case a.tag == aFlush:
 			rn.stats["actions_flush"]++
-		case a.tag >= aError404:
+		case a.tag >= aError404 && a.tag <= aRespondJson:
 			rn.stats["actions_store_helpers"]++
+		case a.tag >= aCtxReplace:
+			rn.stats["actions_request_context"]++
 		}
 	}
 	if k, has := panicKindOf(sp.script); has {
@@ -1184,7 +1269,10 @@ func (rn *runner) newSpec(r *hk.Rng, mode int, sc []action) *reqSpec {
 	} else {
 		sp.uri = fmt.Sprintf("/zz/%d/nothing-here", no)
 	}
-	if mode == 1 {
+	if mode == 0 && r.Chance(12) {
+		sp.preCancel = 1 + r.Intn(2)
+	}
+	if mode >= 1 {
 		sp.ip = "127.0.0.1"
 	} else {
 		a := directAddrs[no%len(directAddrs)]
@@ -1198,7 +1286,7 @@ func sanitize(sc []action) []action {
 	var out []action
 	nobody := false
 	for _, a := range sc {
-		if (a.tag == aBody || a.tag >= aError404) && nobody {
+		if (a.tag == aBody || a.tag >= aError404 && a.tag <= aRespondJson) && nobody {
 			continue
 		}
 		if a.tag == aHdr && (a.a == 204 || a.a == 304) {
@@ -1254,7 +1342,8 @@ func run(e *hk.Env) error {
 	nonPanic := []action{{aNop, 0, 0}, {aHdr, 200, 0}, {aHdr, 404, 0}, {aHdr, 500, 0}, {aHdr, 599, 0},
 		{aBody, 0, 1}, {aBody, 1, 2}, {aBody, 2, 3},
 		{aFlush, 0, 0}, {aFlush, 1, 0},
-		{aError404, 0, 4}, {aError500, 0, 5}, {aRedirect, 0, 0}, {aRespond200, 0, 7}, {aRespondJson, 0, 8}}
+		{aError404, 0, 4}, {aError500, 0, 5}, {aRedirect, 0, 0}, {aRespond200, 0, 7}, {aRespondJson, 0, 8},
+		{aCtxReplace, 1, 0}, {aCtxCancel, 0, 0}}
 	// panic values tried behind every prefix; all kinds are tried behind prefixes of at most one action
 	corePanics := []int{pvString, pvTypedNil, pvErrPanics, pvWrapAbort, pvUnwrapNil, pvJsonMarshalerPanics, pvNilDeref, pvDeepStack}
 	maxLen := 2
@@ -1369,6 +1458,20 @@ func run(e *hk.Env) error {
 			}
 		}
 	}
+	// 2b. a raw client that half-closes after sending the request: the handler waits until net/http has
+	// cancelled the request's context and then returns, writes or panics; the client still reads the answer
+	for _, k := range append([]int{-1}, corePanics...) {
+		for _, pre := range [][]action{{}, {{aHdr, 404, 0}}, {{aBody, 0, 1}}, {{aFlush, 0, 0}}, {{aNop, 0, 0}}} {
+			sc := append([]action{{aCtxWait, 0, 0}}, pre...)
+			if k >= 0 {
+				sc = append(sc, action{aPanic, k, 0})
+			}
+			for hkind := 0; hkind < 3; hkind++ {
+				add(hkind, 4, 2, sc)
+			}
+			add(r.Intn(3), []int{0, 8, 12, 16}[r.Intn(4)], 2, sc)
+		}
+	}
 	// 3. the abort value itself (outside the property; model comparison only)
 	for i := 0; i < 60; i++ {
 		sc := append(append([]action(nil), scripts[r.Intn(len(scripts))]...), action{aPanic, pvAbort, 0})
@@ -1393,7 +1496,11 @@ func run(e *hk.Env) error {
 			case x < 11:
 				sc = append(sc, action{aFlush, r.Intn(2), 0})
 			case x < 13:
-				sc = append(sc, action{aError404 + r.Intn(5), 0, 1 + r.Intn(9)})
+				if r.Chance(25) {
+					sc = append(sc, action{aCtxReplace + r.Intn(2), r.Intn(2), 0})
+				} else {
+					sc = append(sc, action{aError404 + r.Intn(5), 0, 1 + r.Intn(9)})
+				}
 			default:
 				sc = append(sc, action{aPanic, randomKind(r), 0})
 			}
